@@ -70,8 +70,57 @@ def run(calling, called, own, required, require_called, identity, n_acceptors, n
     return None, log, assoc
 
 
+def check_active_associations():
+    """native: AE.active_associations is every live Association thread of that AE, whatever flags it carries"""
+    import threading
+    from pynetdicom import AE
+    from pynetdicom.association import Association
+    ae, other = AE(), AE()
+    stop = threading.Event()
+
+    class Idle(Association):
+        def run(self):
+            stop.wait(30)
+    flag_sets = [{}, {"_sent_release": True}, {"is_established": True}, {"is_released": True}, {"_sent_abort": True},
+                 {"is_aborted": True}, {"is_rejected": True}, {"_is_paused": True}]
+    mine, started = [], []
+    try:
+        for fl in flag_sets:
+            for mode in ("acceptor", "requestor"):
+                a = Idle(ae, mode)
+                for k, v in fl.items():
+                    setattr(a, k, v)
+                a.start()
+                mine.append((a, mode, fl))
+                started.append(a)
+        foreign = Idle(other, "acceptor")
+        foreign.start()
+        started.append(foreign)
+        plain = threading.Thread(target=stop.wait, args=(30,))
+        plain.start()
+        started.append(plain)
+        got = ae.active_associations
+    finally:
+        stop.set()
+        for t in started:
+            t.join(5)
+    missing = [(m, f) for (a, m, f) in mine if not any(x is a for x in got)]
+    extra = [type(x).__name__ for x in got if not any(x is a for (a, _m, _f) in mine)]
+    if missing or extra or len(got) != len(mine):
+        return dict(input={"live Association threads of the AE": [(m, f) for (_a, m, f) in mine], "other live threads": ["Association of another AE", "plain thread"]},
+                    observed={"missing from active_associations": missing, "unexpected entries": extra, "length": len(got)},
+                    expected=f"exactly the {len(mine)} live Association threads of this AE")
+    return None
+
+
 def main():
     rec = load() if len(sys.argv) > 1 and sys.argv[1] != "--all" else {"id": "all"}
+    if "active_associations" in rec.get("id", "") or rec.get("id", "").endswith("cross-check") or rec.get("id") == "all":
+        bad = check_active_associations()
+        if bad:
+            done(True, **bad)
+        if "active_associations" in rec.get("id", ""):
+            done(False, note="AE.active_associations returned exactly the live Association threads of the AE")
     bad = None
     n = 0
     for calling, required in (("CALLER", []), ("CALLER", ["CALLER"]), ("CALLER", ["  CALLER  ", "X"]), ("CALLER", ["OTHER"]),
